@@ -389,11 +389,23 @@ impl World {
 }
 
 fn exec_seq(ops: &[Op], unwinding: bool) -> Sx {
+    exec_seq_placed(ops, unwinding, 0)
+}
+/// `nested` 1-3: every drop happens inside the destructor of another entry (c06::drop_nested).
+fn exec_seq_placed(ops: &[Op], unwinding: bool, nested: u8) -> Sx {
     c06::progress();
     let mut w = World::new(None);
     let mut obs = vec![];
     for &op in ops {
-        if unwinding {
+        if nested != 0 {
+            let r = std::panic::catch_unwind(std::panic::AssertUnwindSafe(|| match w.take_doomed(op) {
+                Some(d) => c06::drop_nested(d, nested),
+                None => w.apply_nondrop(op),
+            }));
+            if r.is_err() {
+                w.panicked = true;
+            }
+        } else if unwinding {
             if w.apply_unwinding(op) {
                 w.panicked = true;
             }
@@ -421,6 +433,10 @@ pub fn seq_case(ops: &[Op]) -> Sx {
 /// The same history inside a tokio task whose cooperative budget is used up (closing must not depend on it).
 pub fn seq_case_no_budget(ops: &[Op]) -> Sx {
     sx::tag(0, vec![Sx::L(SHAPE.iter().map(|&b| sx::boolean(b)).collect()), Sx::L(ops.iter().map(enc_op).collect()), sx::n(2u8)])
+}
+/// The same history with every drop performed inside another entry's destructor (mode 1-3 of c06::drop_nested).
+pub fn seq_case_nested(ops: &[Op], mode: u8) -> Sx {
+    sx::tag(0, vec![Sx::L(SHAPE.iter().map(|&b| sx::boolean(b)).collect()), Sx::L(ops.iter().map(enc_op).collect()), sx::n(2 + mode)])
 }
 /// The same history with every drop performed during an unwind (third argument; the model does not read it).
 pub fn seq_case_unwinding(ops: &[Op]) -> Sx {
@@ -464,6 +480,9 @@ pub fn exec(case: &Sx) -> (Sx, bool) {
                 let (r, exhausted) = crate::common::in_exhausted_tokio_task(move || exec_seq(&ops2, false));
                 if !exhausted { eprintln!("c13: the tokio budget was not exhausted"); }
                 (r, opened && dropped)
+            } else if placement >= 3 {
+                // 3-5: every drop inside another entry's destructor (carrier emitted by owner / last flush guard / force guard)
+                (exec_seq_placed(&ops, false, (placement - 2) as u8), opened && dropped)
             } else {
                 (exec_seq(&ops, placement == 1), opened && dropped)
             }
@@ -1071,6 +1090,14 @@ pub fn run(ctx: &Ctx) {
             for ops in &all {
                 emit(&mut out, seq_case_unwinding(ops));
                 out.count("histories_with_drops_during_unwind");
+            }
+        }
+        // ... and inside the destructor of another entry (a carrier owning the object; emitted by its owner, its last
+        // flush guard or a force-flush guard)
+        if ci == 0 {
+            for (i, ops) in all.iter().enumerate().step_by(if ctx.tier_thorough { 1 } else { 2 }) {
+                emit(&mut out, seq_case_nested(ops, 1 + (i / 2 % 3) as u8));
+                out.count("histories_with_drops_inside_another_entrys_destructor");
             }
         }
         // ... and the histories that never poll wait_for_data (a future may answer Pending without budget) inside a
